@@ -977,7 +977,19 @@ class WorldA:
         if c is None:
             return {"status": "noop"}
         sd = {k: v.clone() for k, v in c.cc.state_dict().items()}
-        frozen = {n for n, p in c.cc.named_parameters() if not p.requires_grad}
+        # only tensors that belong to a *tracked* circuit are edited: the dictionary of a derived
+        # circuit also reaches the constants of intermediate results that were compiled as part of
+        # a pipeline but are not tracked on their own (composite derivations) - the model could not
+        # follow an edit of those
+        tracked: set[int] = set()
+        for x in self.alive():
+            for sp in x.tparams:
+                try:
+                    tp_, _ = oracles.registry_entry(self.ctx, sp)
+                    tracked.add(id(tp_()))
+                except Exception:
+                    pass
+        frozen = {n for n, p in c.cc.named_parameters() if not p.requires_grad and id(p) in tracked}
         g = torch.Generator().manual_seed(op["seed"])
         edited = 0
         k_dom = c.domain[1] if c.domain[0] == "discrete" else 0
